@@ -15,6 +15,9 @@ MERCHANTS = [
     dict(name='Moves', cat='Transfers', sub='', tags=['TRANSFER'], pays=[(D(2025, 1, 8), 500.0)]),
     dict(name='Flat', cat='Bills', sub='Power', tags=[], pays=[(D(2025, 1, 9), 50.0), (D(2025, 2, 9), 150.0)]),
     # calendar corners: a leap day next to the 15th of the same month, and the last day of a year
+    # the same merchant paid from two accounts, statements loaded one after the other: payments NOT in date order
+    dict(name='TwoCards', cat='Bills', sub='Power', tags=[],
+         pays=[(D(2025, 1, 10), 60.0), (D(2025, 2, 10), 60.0), (D(2025, 1, 20), 50.0), (D(2025, 2, 20), 50.0), (D(2025, 1, 10), 5.0)]),
     dict(name='Leap', cat='Gym', sub='', tags=[], pays=[(D(2024, 2, 15), 30.0), (D(2024, 2, 29), 30.0), (D(2024, 12, 31), 31.0)]),
 ]
 ATOMS = ['true', 'category == "food"', 'category != "Bills"', 'subcategory == "grocery"', 'merchant == "netflix"', 'months >= 3',
